@@ -12,7 +12,7 @@
     x degree x monomial, against exact rational integrals.
 '''
 
-import itertools, json
+import itertools, json, os
 import numpy
 from .. import core
 from .. import c09_model as M
@@ -20,7 +20,7 @@ from .. import c09_explore as E
 from .. import c09_quad as Q
 
 LEVEL = 'model_checking'
-RULE = ('(a) base samples {gauss1,gauss2,bezier2,uniform2} on line[0,1,3]@X, line[0,.5,1.5,2]@Y, rectilinear 2x1@Z, located-with-weights on X and Z, '
+RULE = ('(a) base samples {gauss1,gauss2,bezier2,uniform2} on mesh.line(2)@X, mesh.line(3)@Y, mesh.rectilinear([2,1])@Z, located-with-weights on X and Z, '
         'gauss2 on two trimmed lines (Mosaic / WithChildren elements); operations mul/rmul(base sample in a free space), add/radd(plain sample on the same '
         'spaces)/addself, take_elements(every ordered selection without repetition of <=3 of the <=4 probe elements first/second/middle/last), '
         'subset(<=5 masks), zip(located sample in a free space, either side), custom index (4 permutations), rename_spaces(fresh/free/swap). '
@@ -38,7 +38,7 @@ ASSUMPTIONS = ['geometries are affine per element; integrands are the polynomial
                'the vertex scheme on trimmed/refined references returns the untrimmed element\'s points by design; nothing is demanded of it',
                'child vertices used for the exact integrals over WithChildren references come from nutils child transforms (checked by C11)',
                'NotImplementedError for a sample construction inside the quantifier (arbitrary nesting) is reported as a violation under an unsupported: key']
-BUDGET_S = {'quick': 400, 'thorough': 3000}
+BUDGET_S = {'quick': int(os.environ.get('C09_BUDGET') or 600), 'thorough': int(os.environ.get('C09_BUDGET') or 3600)}
 
 
 def schedules(tier):
@@ -124,7 +124,7 @@ def probe_shape(spec, tier, res):
         res.count('evaluations', max(1, nmono))
         res.count('quadrature_rules')
         res.distinct('distinct_outcomes', '{}:{}:{}'.format(sh.kind, scheme.split('*')[0] if '*' not in scheme else 'mixed', outcome))
-        if demands and outcome == 'ok':
+        if demands and outcome in ('ok', 'inside-raised'):
             res.distinct('distinct_nontrivial', _label([spec, scheme, degree]))
         for kind, what in fails:
             res.violation(quad_key(kind, sh, scheme, degree), '{}: {}'.format(_label(spec), what), {'part': 'b', 'lmax': lmax(tier), 'ref': spec, 'scheme': scheme, 'degree': degree})
